@@ -150,10 +150,14 @@ def correspondence(v, st, prop, cmd, model_kind, tier, seed, replay=None, profil
 def case_line(outdir, cid, fname="cases.txt"):
     if not os.path.exists(os.path.join(outdir, fname)):
         fname = "cases.txt"
-    with open(os.path.join(outdir, fname)) as f:
-        for c in f:
-            if c.split(" ", 1)[0] == cid:
-                return c.rstrip("\n")
+    # cases-oracle.txt: cases that are checked by the oracles only (not replayed by the model)
+    for fn in (fname, "cases-oracle.txt"):
+        if not os.path.exists(os.path.join(outdir, fn)):
+            continue
+        with open(os.path.join(outdir, fn)) as f:
+            for c in f:
+                if c.split(" ", 1)[0] == cid:
+                    return c.rstrip("\n")
     return ""
 
 
